@@ -259,6 +259,77 @@ def currency_case(chk, rng, i):
     return Case(steps, judge, isolate=True)
 
 
+def money_subclass_case(chk, rng, i):
+    """Currency declarations in a subclass of Money.  The model takes no
+    side on whether the library accepts them; the rule is the property's:
+    an attempt that ends with an exception must leave no trace."""
+    cname = "Cash%d" % (i % 5)
+    steps = [{"id": "$Money", "e": MONEY}] + \
+        [{"e": M(MONEY, "register_currency", ["s", c])} for c in CODES] + \
+        [{"cls": {"name": cname, "base": MONEY, "kw": {}}, "id": "$Cash",
+          "k": "cls"}]
+    acts = []
+    iso = [c for c in ("SEK", "NOK", "DKK", "PLN", "CZK") if c not in CODES]
+    rng.shuffle(iso)
+    for j in range(rng.randint(2, 5)):
+        k = "a%d" % j
+        if rng.random() < 0.5 and iso:
+            sym = iso.pop()
+            e = M(V("$Cash"), "register_currency", ["s", sym])
+            what = "%s.register_currency(%r)" % (cname, sym)
+        else:
+            sym = "K%d_%d" % (i, j)
+            kw = rng.choice([{}, {"minor_unit": ["i", 3]},
+                             {"smallest_fraction": ["D", "0.05"]}])
+            e = ["m", V("$Cash"), "new_unit", [["s", sym], ["s", "n"]], kw]
+            what = "%s.new_unit(%r)" % (cname, sym)
+        steps.append({"k": k, "e": e})
+        steps.append({"k": k + ".snap", "snap": {
+            "syms": [sym], "types": {"Money": "$Money", cname: "$Cash",
+                                     "Quantity": "__Quantity__"}}})
+        acts.append((k, sym, what))
+
+    def judge(obs, rec, case):
+        if obs is None:
+            chk.inconclusive_because("money subclass history died")
+            return
+        if (obs.get("cls") or {}).get("k") == "E":
+            chk.count("subclass of Money not declarable")
+            return
+        chk.case(("money subclass", i))
+        cash = []
+        for k, sym, what in acts:
+            r = obs.get(k, {})
+            snap = obs.get(k + ".snap", {})
+            if r.get("k") != "E":
+                chk.count("currency declarations in a Money subclass|"
+                          "accepted")
+                cash.append(sym)
+                continue
+            chk.count("currency declarations in a Money subclass|rejected")
+            chk.count("rejected|currency:in-money-subclass")
+            bad = []
+            got = snap.get("syms", {}).get(sym, {})
+            if "exc" not in got:
+                bad.append("Unit(%r) exists after the rejection" % sym)
+            p = snap.get("parse", {}).get(sym, {})
+            if "exc" not in p:
+                bad.append("parsing '1 %s' gives a %s" % (sym, p.get("t")))
+            for tn, want in (("Money", sorted(CODES)), (cname, sorted(cash))):
+                m = snap.get("types", {}).get(tn) or {}
+                listed = sorted(s_ for s_, _ in m.get("units", []))
+                if listed != want:
+                    bad.append("%s lists %s, expected %s" % (tn, listed,
+                                                             want))
+            if bad:
+                chk.violation("%s was rejected (%s) but left a trace: %s" %
+                              (what, brief(r), "; ".join(bad)),
+                              dict(steps=steps, at=k, snap=snap),
+                              "trace|currency:in-money-subclass")
+                return
+    return Case(steps, judge, isolate=True)
+
+
 # ---- money converter updates ----------------------------------------------
 
 BAD_VALIDITY = [["s", "2021-13"], ["s", "2021-02-30"],
@@ -452,6 +523,8 @@ def run(chk, R, tier, seed):
         done += m
     cases = [currency_case(chk, rng, i)
              for i in range(60 if tier == "quick" else 1500)]
+    cases += [money_subclass_case(chk, rng, i)
+              for i in range(20 if tier == "quick" else 300)]
     run_cases(chk, R, cases)
     prelude = [{"e": M(MONEY, "register_currency", ["s", c])} for c in CODES]
     cases = [converter_case(chk, rng, i)
